@@ -6,9 +6,10 @@
    block is seen by the call only through alpha (status class, content-type class, grpc-status class,
    metadata class); [outcome k bs] runs the call program of kind k on the abstract script,
    [observe] resolves it against the strings.  [spec_allows bs r] is the table of the property
-   statement.  Five cells of the statement are FALSE of the faithful model; they are kept visible as
-   `_refuted` theorems with their witnesses (findings D2c..D2g) next to the `_partial` theorems whose
-   hypothesis excludes exactly the recorded class. *)
+   statement.  Four cells of the statement are FALSE of the faithful model; they are kept visible as
+   `_refuted` theorems with their witnesses (findings D2c, D2d, D2f, D2g) next to the `_partial`
+   theorems whose hypothesis excludes exactly the recorded class.  (A fifth, D2e -- END_STREAM without
+   trailers made the call hang -- was repaired in /repo; its theorems are now at full strength.) *)
 From Coq Require Import ZArith List Bool String.
 From GV Require Import Lib.Str Gen.Facts Gen.FactsC02 Model.Base64 Model.Metadata Model.PyInt
   Model.ClientCall Proofs.C02Proofs.
@@ -170,7 +171,7 @@ Theorem C02_table_refuted :
 Proof. exact table_refuted. Qed.
 Print Assumptions C02_table_refuted.
 
-(* every cell of the statement's table, outside the five recorded defect classes *)
+(* every cell of the statement's table, outside the four recorded defect classes *)
 Theorem C02_table_partial :
   forall k bs, In k all_kinds -> In bs (cases_of 2 k) -> defect k bs = false ->
                spec_allows bs (outcome k bs) = true.
@@ -266,32 +267,42 @@ Print Assumptions C02_row_success.
 (* ------------------------------------------------------------------------------------------------ *)
 (* (3) the call finishes *)
 
-(* FULL-STRENGTH STATEMENT (false): outcome k bs <> RHang for every script that ends in END_STREAM or
-   a cut.  Witness: END_STREAM on the last DATA frame, no trailers (D2e). *)
-Theorem C02_no_hang_refuted :
-  let bs := one [AH (H_ok GsAbsent MdOk) false; AD true] in
-  wf_script bs = true /\ ev_ended (events bs) = true /\
-  outcome (Call false false) bs = RHang /\ outcome (Call false true) bs = RHang.
-Proof. exact no_hang_refuted. Qed.
-Print Assumptions C02_no_hang_refuted.
-
 (* for ALL scripts (any length, any batching, any triggers), all kinds and all open() bodies: an
-   effective cut, or trailers in a well-formed script, make the call finish *)
+   effective cut, or END_STREAM in a well-formed script (on the headers, on DATA, or on trailers), make
+   the call finish.  FULL STRENGTH. *)
 Theorem C02_no_hang :
   forall k bs,
-    ev_cut (events bs) false = true \/ (wf_script bs = true /\ has_trl_ev (events bs) = true) ->
+    ev_cut (events bs) false = true \/ (wf_script bs = true /\ ev_ended (events bs) = true) ->
     outcome k bs <> RHang.
 Proof. exact no_hang_general. Qed.
 Print Assumptions C02_no_hang.
 
-(* on the bounded domain also for trailers-only responses: everything that ends in END_STREAM or a cut
-   finishes, except END_STREAM without any grpc-status *)
-Theorem C02_no_hang_partial :
+(* the same read off the enumeration *)
+Theorem C02_no_hang_enumerated :
   forall k bs, In k all_kinds -> In bs (cases_of 2 k) ->
-               ev_ended (events bs) || ev_cut (events bs) false = true -> d2e k bs = false ->
+               ev_ended (events bs) || ev_cut (events bs) false = true ->
                outcome k bs <> RHang.
-Proof. exact no_hang_partial. Qed.
-Print Assumptions C02_no_hang_partial.
+Proof. exact no_hang_enumerated. Qed.
+Print Assumptions C02_no_hang_enumerated.
+
+(* the repaired cell (formerly D2e): END_STREAM without trailers and without grpc-status gives UNKNOWN *)
+Theorem C02_row_end_stream_without_status :
+  forall k bs, In k all_kinds -> In bs (cases_of 2 k) -> row_missing_status_hyp k bs = true ->
+               outcome k bs = RExc (XBadGrpcStatus BTrl).
+Proof. exact row_missing_status. Qed.
+Print Assumptions C02_row_end_stream_without_status.
+
+Theorem C02_end_stream_without_trailers :
+  let bs := one [AH (H_ok GsAbsent MdOk) false; AD true] in
+  let bs' := one [AH (H_ok GsAbsent MdOk) true] in
+  wf_script bs = true /\ ev_ended (events bs) = true /\
+  outcome (Call false false) bs = RExc (XBadGrpcStatus BTrl) /\
+  outcome (Call false true) bs = RExc (XBadGrpcStatus BTrl) /\
+  outcome (Call false false) bs' = RExc (XBadGrpcStatus BTrl) /\
+  outcome (Open false true [RI; IT]) bs' = RExc (XBadGrpcStatus BTrl) /\
+  spec_allows bs (RExc (XBadGrpcStatus BTrl)) = true.
+Proof. exact end_stream_without_trailers. Qed.
+Print Assumptions C02_end_stream_without_trailers.
 
 (* the model never reaches its internal-inconsistency outcome on the domain *)
 Theorem C02_never_stuck :
